@@ -76,7 +76,7 @@ func (g *Gen) tplLineProbes() []L.Stmt {
 	defer func() { g.fn = saved }()
 	var out []L.Stmt
 	for i, n := 0, 1+g.n(4, "nprobes"); i < n; i++ {
-		form := g.n(15, "lineprobe")
+		form := g.n(18, "lineprobe")
 		g.class("lineprobe:" + itoa(form))
 		switch form {
 		case 0:
@@ -161,9 +161,43 @@ func (g *Gen) tplLineProbes() []L.Stmt {
 			} else {
 				out = append(out, emit(call(name("pcall"), fn(nil, false, blk(local1("z", &L.NilExpr{}), local([]string{"a", "b"}, num(1), num(2)), preds[pi], faults[fi], ret(num(1)))))))
 			}
+		case 15, 16:
+			// a generic for whose header calls out: the generator is not callable, the iterator asks for the line of its
+			// caller (the for statement), or raises at level 2 - all reported against the loop header, however long the body
+			body := blk(emit(str("generic for body"), name("gk")), local1("pad1", num(1)), local1("pad2", num(2)))
+			switch g.n(4, "genforline") {
+			case 0:
+				out = append(out, emit(call(name("pcall"), fn(nil, false, blk(&L.GenForStmt{Names: []string{"gk"}, Exprs: []L.Expr{&L.NilExpr{}}, Body: body})))))
+			case 1:
+				out = append(out, emit(call(name("pcall"), fn(nil, false, blk(&L.GenForStmt{Names: []string{"gk"}, Exprs: []L.Expr{tbl(), num(1)}, Body: body})))))
+			case 2:
+				it := fn([]string{"s", "c"}, false, blk(emitline(str("iterator called from line"), field(call(field(name("debug"), "getinfo"), num(2), str("l")), "currentline")), ifs(bin("<", name("c"), num(2)), blk(ret(bin("+", name("c"), num(1)))), nil)))
+				out = append(out, local1("lit", it), &L.GenForStmt{Names: []string{"gk"}, Exprs: []L.Expr{name("lit"), &L.NilExpr{}, num(0)}, Body: body})
+			default:
+				it := fn([]string{"s", "c"}, false, blk(ifs(bin(">=", name("c"), num(1)), blk(callStmt(call(name("error"), str("iterator gives up"), num(2)))), nil), ret(bin("+", name("c"), num(1)))))
+				out = append(out, emit(call(name("pcall"), fn(nil, false, blk(local1("lit", it), &L.GenForStmt{Names: []string{"gk"}, Exprs: []L.Expr{name("lit"), &L.NilExpr{}, num(0)}, Body: body})))))
+			}
+			g.class("lineprobe:generic_for_header")
+		case 17:
+			// three function levels: the middle one hands the same outer variable on to several inner closures (and uses
+			// it itself); it has each upvalue once
+			mid := fn(nil, false, blk(local1("in1", fn(nil, false, blk(ret(name("ox"))))), local1("in2", fn(nil, false, blk(ret(bin("..", call(name("tostring"), name("ox")), call(name("tostring"), name("oy"))))))), local1("in3", fn(nil, false, blk(assign1(name("ox"), num(1)), ret(name("oz"))))),
+				ret(name("in1"), name("in2"), name("in3"), name("ox"))))
+			outer := fn(nil, false, blk(local([]string{"ox", "oy", "oz"}, num(10), str("twenty"), num(30)), local1("mid", mid), callStmt(call(name("dumpupvalues"), name("mid"))),
+				emit(str("setupvalue oy"), call(name("setupbyname"), name("mid"), str("oy"), str("changed"))), emit(name("ox"), name("oy"), name("oz")),
+				local([]string{"i1", "i2", "i3"}, call(name("mid"))), callStmt(call(name("dumpupvalues"), name("i2"))), emit(call(name("i2"))), emit(call(field(name("debug"), "getupvalue"), name("mid"), num(4)))))
+			out = append(out, local1("outer17", outer), callStmt(call(name("outer17"))))
+			g.class("lineprobe:upvalue_handed_on_twice")
 		default:
-			// loop control faults are reported against the loop header
-			out = append(out, emit(call(name("pcall"), fn(nil, false, blk(&L.NumForStmt{Var: "i", Start: num(1), End: tbl(), Body: blk(emit(name("i")))})))))
+			// loop control faults are reported against the loop header: a bad initial value, limit or step, whatever the body
+			bad := g.n(3, "badforpart")
+			parts := []L.Expr{num(1), num(2), num(1)}
+			parts[bad] = []L.Expr{tbl(), &L.TrueExpr{}, &L.NilExpr{}}[g.n(3, "badforval")]
+			if bad == 1 && g.n(2, "plain") == 0 {
+				parts[2] = nil
+			}
+			out = append(out, emit(call(name("pcall"), fn(nil, false, blk(&L.NumForStmt{Var: "i", Start: parts[0], End: parts[1], Step: parts[2], Body: blk(emit(name("i")), local1("pad1", num(1)), local1("pad2", num(2)))})))))
+			g.class("lineprobe:numeric_for_header")
 		}
 	}
 	return out
